@@ -146,7 +146,8 @@ pub fn exec(sc: &Scenario, st: &mut Stats) -> Option<Violation> {
                 // the in-memory node is gone; only durable state survives
                 let (mut fresh, offset, info) = match disk.last() {
                     Some(g) => {
-                        let r = match on(Side::Subject, || node.load(&g.bytes)) {
+                        // odd steps restore through an io::Read, even ones from the byte slice
+                        let r = match on(Side::Subject, || if i % 2 == 1 { node.load_reader(&g.bytes) } else { node.load(&g.bytes) }) {
                             Ok(r) => r,
                             Err(e) => return Some(viol("serde-error", kind, i, format!("deserialize of bytes we wrote failed: {}", e), vec![], vec![e])),
                         };
@@ -165,7 +166,7 @@ pub fn exec(sc: &Scenario, st: &mut Stats) -> Option<Violation> {
                         recrashed = true;
                         st.fault(Fault::CrashDuringReplay);
                         let g = disk.last().unwrap();
-                        fresh = match on(Side::Subject, || node.load(&g.bytes)) {
+                        fresh = match on(Side::Subject, || if i % 2 == 0 { node.load_reader(&g.bytes) } else { node.load(&g.bytes) }) {
                             Ok(r) => r,
                             Err(e) => return Some(viol("serde-error", kind, i, format!("deserialize failed: {}", e), vec![], vec![e])),
                         };
@@ -229,12 +230,14 @@ pub fn exec(sc: &Scenario, st: &mut Stats) -> Option<Violation> {
             }
             Op::RoundTrip { times, .. } => {
                 let ph = phase(count, window, was_reset);
+                let mut done_rt = 0usize;
                 for _ in 0..(*times).max(1) {
+                    done_rt += 1;
                     let bytes = match on(Side::Subject, || node.save()) {
                         Ok(b) => b,
                         Err(e) => return Some(viol("serde-error", kind, i, format!("serialize failed: {}", e), vec![], vec![e])),
                     };
-                    node = match on(Side::Subject, || node.load(&bytes)) {
+                    node = match on(Side::Subject, || if (i + done_rt) % 2 == 1 { node.load_reader(&bytes) } else { node.load(&bytes) }) {
                         Ok(r) => r,
                         Err(e) => return Some(viol("serde-error", kind, i, format!("deserialize of bytes we wrote failed: {}", e), vec![], vec![e])),
                     };
@@ -497,6 +500,22 @@ fn mega_scenario(idx: u64, periods: &[usize]) -> Scenario {
     Scenario { property: PROP.into(), stage: "sweep-mega".into(), nodes: vec![spec], ops, workers: 0 }
 }
 
+/// huge-periods (fixed corpus): the windowless EMA family with periods around 2^31 .. 2^62: the restored
+/// node must report the same period()/Display and behave the same
+fn huge_scenario(idx: u64, specs: &[NodeSpec]) -> Scenario {
+    let spec = specs[idx as usize];
+    let t = |j: usize| Op::Feed { n: 0, x: gen::plain_tick(j), f: Fault::Clean };
+    let mut ops: Vec<Op> = (0..6).map(t).collect();
+    ops.push(Op::Ckpt { n: 0, lost: false });
+    ops.extend((6..8).map(t));
+    ops.push(Op::Crash { n: 0, recrash: 1 });
+    ops.extend((8..16).map(t));
+    ops.push(Op::RoundTrip { n: 0, times: 2, json: idx % 2 == 0 });
+    ops.push(Op::Format { n: 0 });
+    ops.extend((16..20).map(t));
+    Scenario { property: PROP.into(), stage: "huge-periods".into(), nodes: vec![spec], ops, workers: 0 }
+}
+
 pub fn run(tier: Tier) -> i32 {
     let c = report::ctx();
     let start = Instant::now();
@@ -518,13 +537,18 @@ pub fn run(tier: Tier) -> i32 {
     };
     let n_mega = 13 * mega_periods.len() as u64;
     let mega = if sweep.found.is_none() && !gen::skip_fixed() { Some(run_stage("sweep-mega", n_mega, wall_cap, &mut total, &|i| mega_scenario(i, mega_periods), &exec_guarded, &[], 5)) } else { None };
-    let seeded = if sweep.found.is_none() && mega.as_ref().map_or(true, |m| m.found.is_none()) {
+    let hspecs = gen::huge_specs();
+    let huge = if sweep.found.is_none() && mega.as_ref().map_or(true, |m| m.found.is_none()) && !gen::skip_fixed() { Some(run_stage("huge-periods", hspecs.len() as u64, wall_cap, &mut total, &|i| huge_scenario(i, &hspecs), &exec_guarded, &[], 5)) } else { None };
+    let seeded = if sweep.found.is_none() && mega.as_ref().map_or(true, |m| m.found.is_none()) && huge.as_ref().map_or(true, |m| m.found.is_none()) {
         Some(run_stage("seeded", seeded_runs, wall_cap, &mut total, &|i| generate(&mut Rng::new(run_seed(c.seed, PROP, "seeded", i)), tier), &exec_guarded, &[0, 1], 30))
     } else {
         None
     };
     let mut stages = vec![&sweep];
     if let Some(s) = &mega {
+        stages.push(s);
+    }
+    if let Some(s) = &huge {
         stages.push(s);
     }
     if let Some(s) = &seeded {
